@@ -208,6 +208,9 @@ class PathDomain(Domain):
                     d[x.id] = None
         return ((tuple(sorted(d.items(), key=lambda kv: kv[0])), facts, events),)
 
+    def enter_while(self, node, state):
+        return self.enter_loop(node, state)
+
     def on_return(self, node, state):
         env, facts, events = state
         if node.value is None:
